@@ -181,7 +181,9 @@ def run(ctx):
     for snd, toa, rssi, ci, (vs, vr), d in itertools.product(SND_SET, toas, RSSI_SET, CI_SET, versions, (0, 1)):
         items.append(((snd, toa, rssi, ci, vs, vr, d, 0), reps, ATTS))
     # the same settings applied in other orders relative to POWERON (re-negotiation while running, power cycle)
-    for snd, toa, (vs, vr), d, order in itertools.product(SND_SET[::3], toas[::2], versions, (0, 1), (1, 2)):
+    # (ToA settings here: a fixed value and two windows - the relative FAKE_TOA / FAKE_CI / FAKE_RSSI forms that follow in
+    # order 2 must move a window that was configured with a non-zero threshold)
+    for snd, toa, (vs, vr), d, order in itertools.product(SND_SET[::3], [TOA_SET[0], TOA_SET[3], TOA_SET[5]], versions, (0, 1), (1, 2)):
         items.append(((snd, toa, RSSI_SET[2], CI_SET[1], vs, vr, d, 0), reps, ATTS[:2], order))
     nprod = len(items)
     full = full_bursts() + gen
